@@ -43,7 +43,19 @@ def run(chk, replay=None):
                 continue
             pairs = [case["pair"]]
         else:
-            progs = gen_progs.block_programs(chk.seed * 1000 + (1 if flavour == "ne" else 2), n, cj)
+            # TLC-enumerated family (Gen_Blocks.tla): every nesting up to MaxLen tokens; the same run checks in-model
+            # that the script machine agrees with the *documented* desugaring on every enumerated program
+            gcfg = "Gen_Blocks_%s%s.cfg" % ("quick" if quick else "thorough", "" if flavour == "ne" else "_gt")
+            gout = os.path.join(lib.workdir("c06_gen_" + flavour), "blocks.ndjson")
+            gres = lib.tlc("Gen_Blocks", cfg=gcfg, env={"OUT": gout}, workers=1, timeout=600 if quick else 3000, name="gen_blocks_" + flavour)
+            if not gres.ok:
+                raise lib.ToolError("MC_Desugar: AstSem disagrees with the documented desugaring (specification inconsistency)\n" + gres.out[-3000:])
+            chk.tlc_stats(gres)
+            enumerated = [{"id": 500000 + j, "cfg": {"int_regs": gen_progs.INT_REGS + [1020], "float_regs": gen_progs.FLOAT_REGS, "count_jmp": cj},
+                           "vars": [{"id": "r1000", "ty": "i"}, {"id": "r1001", "ty": "i"}], "body": row["body"]}
+                          for j, row in enumerate(lib.read_ndjson(gout))]
+            chk.add("enumerated_programs", len(enumerated))
+            progs = enumerated + gen_progs.block_programs(chk.seed * 1000 + (1 if flavour == "ne" else 2), n, cj)
             progs += gen_progs.block_programs(chk.seed * 1000 + 7, n // 5, cj, start_id=n + 1, diff_labels=True)
             pairs = harness_pairs(chk, progs, flavour)
         chk.add("programs", len(pairs))
